@@ -956,13 +956,16 @@ class Spec:
                          "Mhd.C03.no_further_request", "Mhd.C03.flagsWF_reachable", "Mhd.C03.error_reply_taints",
                          "Mhd.C03.no_reparse_run", "Mhd.C03.decideBody_agrees_reference", "Mhd.C03.host_rule_refuses",
                          "Mhd.C03.framing_defect_no_resync", "Mhd.C03.strict_parser_lawful", "Mhd.C03.take_absorbed",
-                         "Mhd.C03.partial_takes_no_desync", "Mhd.C03.pipeline_no_desync_takes"]
+                         "Mhd.C03.partial_takes_no_desync", "Mhd.C03.pipeline_no_desync_takes",
+                         "Mhd.C03.head_refusal_no_resync", "Mhd.C03.real_parser_lawful",
+                         "Mhd.C03.pipeline_no_desync_real_parser_partial", "Mhd.C03.frames_agree_reference_real_parser_partial",
+                         "Mhd.C03.split_independence_real_parser_partial"]
     trusted_base = ["Lean 4 kernel", "axioms: propext, Classical.choice, Quot.sound at most (audited per theorem)",
                     "hand-written model lean/Mhd/Model/Framing*.lean, Chunked.lean tied to connection.c by this run's correspondence",
                     "reference framer / chunk grammar in lean/Mhd/Model/FramingRef.lean (specification, read it) and its independent Python twin in tools/props/C03.py",
                     "tools/props/C03.py gen_framing (thresholds, status codes, header names regenerated)",
                     "harness/h_conn03.c (copy of the shared daemon harness + settle/feed, recv progress shim), harness/h_chunk.c, gcc, ASan/UBSan"]
-    assumptions = ["the request-head parser is a parameter of the theorems (any incremental scanner delivering any method/target/field list; `LawfulHeadParser`); that the real get_request_line/get_req_headers is one is C02's subject (split independence). The executable model runs the strict splitter (CRLF, single SP, token names in any case, OWS around values, duplicates and list values allowed, no Cookie, method not HEAD/CONNECT, unreserved target); other heads: oracle only",
+    assumptions = ["the request-head parser is a parameter of the theorems (any incremental scanner delivering any method/target/field list; `LawfulHeadParser`); that the real get_request_line/get_req_headers is one is C02's subject (split independence). The executable model runs the strict splitter (CRLF, single SP, token names in any case, OWS around values, duplicates and list values allowed, no Cookie, method not HEAD/CONNECT, unreserved target); other heads: oracle + the composition with C02's scanners (`reqParser`, driver op runreal)",
                    "the interim '100 Continue' reply is not an event of the model (the Expect path need_100_continue / CONTINUE_SENDING is modelled as a state); interim replies are skipped when replies are compared",
                    "partial upload takes: proved equivalent to the take-all automaton for every schedule of arrivals/iterations/takes (partial_takes_no_desync); the application always replies at the first or at the final call",
                    "socket always writable; one connection; external select mode",
@@ -1018,6 +1021,18 @@ class Spec:
             failures.append(vlib.Failure("model", "frame: model driver failed", (merr or "")[-800:] + " lines=%d/%d" % (len(mout), len(cases)),
                                          mlines[:3], ENGINE))
             mout = mout + [""] * (len(cases) - len(mout))
+        # where the strict head splitter gives no prediction, the composition "C02 scanners + C03 automaton" does
+        ood = [i for i, l in enumerate(mout) if "state=out-of-domain" in l]
+        if ood:
+            rl = ["runreal %d %s %s" % (cases[i]["lvl"], ",".join(cases[i]["behs"]) if cases[i]["behs"] else "-",
+                                        " ".join(hx(x) for x in cases[i]["segs"])) for i in ood]
+            rout, rrc, rerr = run_driver(self.driver, rl)
+            if rrc == 0 and len(rout) == len(ood):
+                for i, l in zip(ood, rout):
+                    mout[i] = l
+                    cases[i]["real_parser"] = True
+            else:
+                failures.append(vlib.Failure("model", "frame: model driver failed (runreal)", (rerr or "")[-500:], rl[:2], ENGINE))
         for i, c in enumerate(cases):
             lines = by.get(ids[i])
             if lines is None or "stopped" not in lines:
@@ -1056,6 +1071,8 @@ class Spec:
                 continue
             if c.get("features"):
                 stats["noncanonical_compared_with_model"] += 1
+            if c.get("real_parser"):
+                stats["compared_with_real_parser_composition"] += 1
             diff = None
             if ms["reqs"] != hs["reqs"]:
                 diff = "handler calls differ: code %s model %s" % (hs["reqs"], ms["reqs"])
@@ -1456,6 +1473,7 @@ class Spec:
         stats = {"cases": 0, "reqs_seen": 0, "status": {}, "closed": 0, "open": 0, "defect": {}, "lvl": {},
                  "model_out_of_domain": 0, "small_cases": 0, "chunk_outcomes": {}, "ref_checked": 0, "head_features": {},
                  "noncanonical_field_list_cases": 0, "noncanonical_compared_with_model": 0, "take_cases": 0,
+                 "compared_with_real_parser_composition": 0,
                  "bodytake": {"cases": 0, "partial_take_happened": 0, "chunked": 0, "identity": 0, "outcomes": {}}}
         # corpus first
         cdir = os.path.join(vlib.VERIF, "corpus", ENGINE)
@@ -1508,6 +1526,7 @@ class Spec:
                "daemon_cases": stats["cases"], "small_arena_cases_oracle_only": stats["small_cases"],
                "chunk_cases": nchunk, "chunk_buffers_exhaustive": getattr(self, "n_chunk_exh", 0),
                "reference_framer_streams_cross_checked": stats["ref_checked"], "model_out_of_domain_skipped": stats["model_out_of_domain"],
+               "strict_splitter_out_of_domain_compared_with_real_parser_composition": stats["compared_with_real_parser_composition"],
                "outcomes": {"status": stats["status"], "server_closed": stats["closed"], "left_open": stats["open"],
                             "requests_seen_by_handler": stats["reqs_seen"], "chunk": stats["chunk_outcomes"]},
                "defect_classes": stats["defect"], "levels": stats["lvl"],
